@@ -46,8 +46,19 @@ class VFS:
             _, p, kind = op
             if p in n or n.get(os.path.dirname(p), {}).get("kind") != "d":
                 return False
-            n[p] = {"kind": kind, "ino": self.next_ino, "dev": 7, "mtime": 1000.0, "size": 0}
+            n[p] = {"kind": kind, "ino": self.next_ino, "dev": 7, "mtime": 1000.0 + 3 * self.next_ino, "size": self.next_ino % 4 if kind == "f" else 0}
             self.next_ino += 1
+        elif k == "rotate":  # log rotation through one name: b -> c, then a -> b
+            _, a, b, c = op
+            if a not in n or b not in n or c in n or a == b or ROOT in (a, b) or any(x.startswith(y + "/") for x in (a, b, c) for y in (a, b) if x != y) or n.get(os.path.dirname(c), {}).get("kind") != "d":
+                return False
+            return self.apply(["rename", b, c]) and self.apply(["rename", a, b])
+        elif k == "swap":  # two entries exchange their names
+            _, a, b = op
+            if a not in n or b not in n or a == b or ROOT in (a, b) or a.startswith(b + "/") or b.startswith(a + "/"):
+                return False
+            tmp = a + ".swap-tmp"
+            return self.apply(["rename", a, tmp]) and self.apply(["rename", b, a]) and self.apply(["rename", tmp, b])
         elif k == "delete":
             if op[1] not in n or op[1] == ROOT:
                 return False
@@ -223,8 +234,11 @@ class C10(Scenario):
                 return ["delete", rng.choice(ents)]
             if r < 0.7:
                 return ["rename", rng.choice(ents), rng.choice(dirs) + "/" + rng.choice(names)]
-            if r < 0.88:
+            if r < 0.84:
                 return ["modify", rng.choice(ents + [ROOT]), rng.choice([0, 1])]
+            if r < 0.9 and len(ents) >= 2:
+                a, b = rng.sample(ents, 2)
+                return ["rotate", a, b, rng.choice(dirs) + "/" + rng.choice(names)] if rng.random() < 0.6 else ["swap", a, b]
             return ["replace", rng.choice(ents), rng.choice("fd")]
 
         for _ in range(rng.randrange(0, 7)):
